@@ -115,9 +115,9 @@ parser! {
             x:(@) space() "%" space() y:@ { Expr::Binary(Box::new(BinaryExpr{left: x, operator: BinaryOperator::Rem, right: y})) }
             --
             // precedence 14
-            "-" v:@ { Expr::Unary(Box::new(UnaryExpr{operator: UnaryOperator::Minus, expr: v})) }
-            "~" v:@ { Expr::Unary(Box::new(UnaryExpr{operator: UnaryOperator::BitwiseNot, expr: v})) }
-            "!" v:@ { Expr::Unary(Box::new(UnaryExpr{operator: UnaryOperator::LogicalNot, expr: v})) }
+            "-" space() v:@ { Expr::Unary(Box::new(UnaryExpr{operator: UnaryOperator::Minus, expr: v})) }
+            "~" space() v:@ { Expr::Unary(Box::new(UnaryExpr{operator: UnaryOperator::BitwiseNot, expr: v})) }
+            "!" space() v:@ { Expr::Unary(Box::new(UnaryExpr{operator: UnaryOperator::LogicalNot, expr: v})) }
             --
             // precedence 15
             n:e_ident() space() "(" space() args:expr() space() ")" { Expr::Func(Box::new(n), Box::new(args)) }
@@ -170,9 +170,9 @@ parser! {
             = r_name:$(['x' | 'y' | 'z' | 'X' | 'Y' | 'Z']) { Reg16::from_str(r_name.to_lowercase().as_str()).unwrap() }
 
         pub rule index_ops() -> IndexOps
-            = "-" r:reg16() !char_ident() { IndexOps::PreDecrement(r) }
-            / r:reg16() "+" e:expr() { IndexOps::PostIncrementE(r, e) }
-            / r:reg16() "+" { IndexOps::PostIncrement(r) }
+            = "-" space() r:reg16() !char_ident() { IndexOps::PreDecrement(r) }
+            / r:reg16() space() "+" space() e:expr() { IndexOps::PostIncrementE(r, e) }
+            / r:reg16() space() "+" { IndexOps::PostIncrement(r) }
             / r:reg16() !char_ident() { IndexOps::None(r) }
 
 
@@ -219,7 +219,7 @@ parser! {
 
         // instruction line
         pub rule instruction_line() -> Document
-            = l:label()? space() o:operation() space() ol:op_list() space() comment()? {Document::CodeLine(Box::new(l), o, ol)}
+            = space() l:label()? space() o:operation() space() ol:op_list() space() comment()? {Document::CodeLine(Box::new(l), o, ol)}
 
         // directive operand
         pub rule directive_op() ->  Operand
@@ -243,13 +243,13 @@ parser! {
 
         // directive line
         pub rule directive_line() -> Document
-            = l:label()? space() d:directive() space() os:directive_ops() space() comment()? { Document::DirectiveLine(Box::new(l), d, os) }
+            = space() l:label()? space() d:directive() space() os:directive_ops() space() comment()? { Document::DirectiveLine(Box::new(l), d, os) }
 
         // line
         pub rule line() -> Document
             = d_l:directive_line() { d_l }
             / i_l:instruction_line() { i_l }
-            / l:label() space() comment()? { l }
+            / space() l:label() space() comment()? { l }
             / space() comment() { Document::EmptyLine }
             / space() new_line() { Document::EmptyLine }
     }
